@@ -10,10 +10,10 @@ use alpenglow::{Stake, ValidatorIndex, ValidatorInfo};
 use rand::prelude::*;
 use rand::rngs::StdRng;
 
-pub type Rng = StdRng;
+pub type SRng = StdRng;
 
 /// Deterministic RNG from a seed and a domain tag.
-pub fn mk_rng(seed: u64, tag: &str) -> Rng {
+pub fn mk_rng(seed: u64, tag: &str) -> SRng {
     let mut s = [0u8; 32];
     s[..8].copy_from_slice(&seed.to_le_bytes());
     let t = tag.as_bytes();
@@ -87,7 +87,7 @@ impl Epoch {
     }
 }
 
-pub fn make_epoch(rng: &mut Rng, stakes: &[u64], family: &str) -> Epoch {
+pub fn make_epoch(rng: &mut SRng, stakes: &[u64], family: &str) -> Epoch {
     let mut sks = Vec::new();
     let mut vsks = Vec::new();
     let mut vals = Vec::new();
@@ -112,7 +112,7 @@ pub fn make_epoch(rng: &mut Rng, stakes: &[u64], family: &str) -> Epoch {
 
 /// Cheap epoch for routing / sampling workloads: all validators share one key pair
 /// (keys are irrelevant there), so that n in the thousands is affordable.
-pub fn make_epoch_cheap(rng: &mut Rng, stakes: &[u64], family: &str) -> Epoch {
+pub fn make_epoch_cheap(rng: &mut SRng, stakes: &[u64], family: &str) -> Epoch {
     let sk = signature::SecretKey::new(rng);
     let vsk = aggsig::SecretKey::new(rng);
     let mut vals = Vec::new();
@@ -140,7 +140,7 @@ pub fn make_epoch_cheap(rng: &mut Rng, stakes: &[u64], family: &str) -> Epoch {
 pub const FAMILIES: &[&str] = &["equal", "smallint", "exact5", "exact10", "exact100", "heavy", "whale60", "whale80", "lamports"];
 
 /// Generates stakes for `n` validators from the named family.
-pub fn gen_stakes(rng: &mut Rng, family: &str, n: usize) -> Vec<u64> {
+pub fn gen_stakes(rng: &mut SRng, family: &str, n: usize) -> Vec<u64> {
     assert!(n >= 1);
     match family {
         "equal" => vec![1; n],
@@ -192,7 +192,7 @@ pub fn gen_stakes(rng: &mut Rng, family: &str, n: usize) -> Vec<u64> {
     }
 }
 
-pub fn pick_family(rng: &mut Rng, families: &[&'static str]) -> &'static str {
+pub fn pick_family(rng: &mut SRng, families: &[&'static str]) -> &'static str {
     families[rng.random_range(0..families.len())]
 }
 
